@@ -17,6 +17,7 @@ from __future__ import annotations
 import ast
 
 from harness.common import TranslateError, ast_digest, src_text
+from translate import c15_norm
 
 # Formats whose codecs exist in the source but are deliberately NOT modelled (the oracle search covers them).
 NOT_MODELLED = {'rgb888_bluescreen', 'bgr888_bluescreen'}
@@ -718,7 +719,9 @@ def _zexpr(node: ast.expr, names: dict[str, str]) -> str:
     _err(node, f'arithmetic not understood: {s}')
 
 
-def _pixel_access(fn: ast.FunctionDef) -> dict:
+def _pixel_access(cls: ast.ClassDef, fn: ast.FunctionDef) -> dict:
+    # helper methods of the same class (e.g. a shared bounds check + offset computation) are inlined first
+    fn = c15_norm.inline_self_calls(cls, fn)
     unpack = [st for st in fn.body if isinstance(st, ast.Assign) and ast.unparse(st.targets[0]) in ('(x, y)', 'x, y')]
     if len(unpack) != 1 or ast.unparse(unpack[0].value) != 'item':
         _err(fn, f'{fn.name}: `x, y = item` not found')
@@ -853,15 +856,15 @@ def _scale_down(fn: ast.FunctionDef) -> dict:
 
 
 def layout_info() -> dict:
-    tree = ast.parse(src_text('vtf.py'))
+    tree = c15_norm.normalised_tree(src_text('vtf.py'))
     vtf = _find_class(tree, 'VTF')
     frame = _find_class(tree, 'Frame')
     info = {
         'mip': _mip_loop(_find_method(vtf, '__init__')),
         'save': _loop_nest(_find_method(vtf, 'save'), 'self.mipmap_count'),
         'read': _loop_nest(_find_method(vtf, 'read'), 'mipmap_count'),
-        'getitem': _pixel_access(_find_method(frame, '__getitem__')),
-        'setitem': _pixel_access(_find_method(frame, '__setitem__')),
+        'getitem': _pixel_access(frame, _find_method(frame, '__getitem__')),
+        'setitem': _pixel_access(frame, _find_method(frame, '__setitem__')),
     }
     rd = info['read']['dims']
     info['read_dims_max_shr'] = (rd.get('mip_width') == f'max(width >> {info["read"]["var"]}, 1)'
